@@ -63,10 +63,10 @@ theorem ensureFold_fix {now : Int} {new : Val} (l : List Index) {c c' : Coll}
 /-! ### a duplicate insert is rejected -/
 
 theorem insert_dup_rejected (now : Int) (c : Coll) (fs : Fields) (ix : Index) (p : Val × Val)
-    (hdf : distinctFields ix = true) (hsp : scalarKeys ix p.2 = true)
+    (hdf : distinctFields ix = true) (hsp : valueKeys ix p.2 = true)
     (hix : ix ∈ c.indexes) (hu : ix.unique = true) (hnt : c.ttlIndexes = [])
     (hp : p ∈ c.docs) (hcp : covers ix p.2 = true) (hcd : covers ix (patchDT (.doc fs)) = true)
-    (hsd : scalarKeys ix (patchDT (.doc fs)) = true)
+    (hsd : valueKeys ix (patchDT (.doc fs)) = true)
     (heq : keyEq (keyVals ix p.2) (keyVals ix (patchDT (.doc fs))) = true)
     (hid : dhas "_id" fs = true) (c' : Coll) (id : Val) :
     insertDoc now c (.doc fs) ≠ .ok (c', id) := by
@@ -178,7 +178,7 @@ theorem precheck_total (keys : List (String × Val)) (docs : List (Val × Val))
 
 theorem create_over_dups (now : Int) (c : Coll) (ix : Index) (a b : Val × Val)
     (hu : ix.unique = true) (hnt : c.ttlIndexes = []) (hnew : ∀ i ∈ c.indexes, i.name ≠ ix.name)
-    (hsc : ∀ p ∈ c.docs, scalarKeys ix p.2 = true) (hpf : ix.partialFilter = none)
+    (hsc : ∀ p ∈ c.docs, valueKeys ix p.2 = true) (hpf : ix.partialFilter = none)
     (hns : ix.sparse = false) (hab : [a, b].Sublist c.docs)
     (heq : keyEq (keyVals ix a.2) (keyVals ix b.2) = true) :
     createIndexColl now c ix = (c, .error .dupKey) := by
@@ -187,7 +187,7 @@ theorem create_over_dups (now : Int) (c : Coll) (ix : Index) (a b : Val × Val)
     intro i hi
     simpa using hnew i hi
   have hpc : precheckUnique ix.keys ix.sparse ix.partialFilter c.docs [] = .error .dupKey := by
-    have htot := precheck_total ix.keys c.docs [] (fun p hp => okKeys_of_scalarKeys (hsc p hp))
+    have htot := precheck_total ix.keys c.docs [] (fun p hp => okKeys_of_valueKeys (hsc p hp))
     rw [← hns, ← hpf] at htot
     rcases htot with h | h
     · have := (precheck_ok ix c.docs [] h).2 a b hab (covers_plain hpf hns _) (covers_plain hpf hns _)
@@ -204,11 +204,11 @@ theorem create_over_dups (now : Int) (c : Coll) (ix : Index) (a b : Val × Val)
 
 /-! ### the duplicate insert is rejected with DuplicateKeyError -/
 
-/-- the query raises on no scalar-keyed document on which the partial filter does not raise -/
-theorem query_total (ix : Index) (new e : Val) (hn : OkKeys ix.keys new) (he : OkKeys ix.keys e)
+/-- the look-up raises on no value-keyed document on which the partial filter does not raise -/
+theorem query_total (ix : Index) (new e : Val) (he : OkKeys ix.keys e)
     (hp : ∀ f, ix.partialFilter = some f → ∃ b, filterApplies f e = .ok b) :
     ∃ b, filterApplies (queryOf ix (kwOf ix.keys new)) e = .ok b := by
-  have hb := applyFields_kw ix.keys new e hn he
+  have hb := applyFields_kw ix.keys new e he
   unfold queryOf
   cases hpf : ix.partialFilter with
   | none => exact ⟨_, by simp only [filterApplies, applyVal]; exact hb⟩
@@ -248,17 +248,17 @@ theorem iterDocuments_total {now : Int} {c : Coll} {f : Val} (he : expire now c 
 
 theorem ensureStep_dup {now : Int} {c : Coll} {new : Val} {ix : Index} {a b : Val × Val}
     (he : expire now c = .ok c) (hu : ix.unique = true) (hd : distinctFields ix = true)
-    (hsc : ∀ p ∈ c.docs, scalarKeys ix p.2 = true) (hsn : scalarKeys ix new = true)
+    (hsc : ∀ p ∈ c.docs, valueKeys ix p.2 = true) (hsn : valueKeys ix new = true)
     (hcn : covers ix new = true)
     (hpf : ∀ f, ix.partialFilter = some f → ∀ q ∈ c.docs, ∃ b, filterApplies f q.2 = .ok b)
     (hab : [a, b].Sublist c.docs) (ca : covers ix a.2 = true) (cb : covers ix b.2 = true)
     (ka : keyEq (kv ix.keys a.2) (kv ix.keys new) = true)
     (kb : keyEq (kv ix.keys b.2) (kv ix.keys new) = true) :
     ensureStep now new c ix = .error .dupKey := by
-  have okn := okKeys_of_scalarKeys hsn
+  have okn := okKeys_of_valueKeys hsn
   have hv := valuesFor_ok ix.keys new okn (distinctFields_nodup hd)
   rw [covers_eq, Bool.and_eq_true, Bool.not_eq_true'] at hcn
-  have hskip : (ix.sparse && (kwOf ix.keys new).all isNullKv) = false := by
+  have hskip : (ix.sparse && (kwOf ix.keys new).all isNullCond) = false := by
     rw [kwOf_all_null]; exact hcn.1
   obtain ⟨ma, mb⟩ := pair_mem hab
   have hne : c.docs.isEmpty = false := by
@@ -267,15 +267,15 @@ theorem ensureStep_dup {now : Int} {c : Coll} {new : Val} {ix : Index} {a b : Va
     | cons x xs => rfl
   obtain ⟨ms, hms⟩ := iterDocuments_total (f := queryOf ix (kwOf ix.keys new)) he hne (by
     intro p hp
-    exact query_total ix new p.2 okn (okKeys_of_scalarKeys (hsc p hp)) (fun f hf => hpf f hf p hp))
+    exact query_total ix new p.2 (okKeys_of_valueKeys (hsc p hp)) (fun f hf => hpf f hf p hp))
   obtain ⟨_, _, hlen, _⟩ := iterDocuments_ok hms
   have pa : pfOk ix a.2 = true := by
     have := ca; rw [covers_eq, Bool.and_eq_true] at this; exact this.2
   have pb : pfOk ix b.2 = true := by
     have := cb; rw [covers_eq, Bool.and_eq_true] at this; exact this.2
   have h2 := two_hits hab
-    (query_matches ix new a.2 okn (okKeys_of_scalarKeys (hsc a ma)) pa ka)
-    (query_matches ix new b.2 okn (okKeys_of_scalarKeys (hsc b mb)) pb kb)
+    (query_matches ix new a.2 (okKeys_of_valueKeys (hsc a ma)) pa ka)
+    (query_matches ix new b.2 (okKeys_of_valueKeys (hsc b mb)) pb kb)
   unfold ensureStep
   simp only [hu, Bool.not_true, Bool.false_eq_true, if_false, hv, bind, Except.bind, hskip, hms]
   rw [if_pos (by omega)]
@@ -305,10 +305,10 @@ theorem ensureFold_dup {now : Int} {c : Coll} {new : Val} {ix : Index} (l : List
       · exact hm
 
 theorem insert_dup_dupKey (now : Int) (c : Coll) (fs : Fields) (ix : Index) (p : Val × Val) (k : Val)
-    (hdf : distinctFields ix = true) (hsc : ∀ q ∈ c.docs, scalarKeys ix q.2 = true)
+    (hdf : distinctFields ix = true) (hsc : ∀ q ∈ c.docs, valueKeys ix q.2 = true)
     (hix : ix ∈ c.indexes) (hu : ix.unique = true) (hnt : c.ttlIndexes = [])
     (hp : p ∈ c.docs) (hcp : covers ix p.2 = true) (hcd : covers ix (patchDT (.doc fs)) = true)
-    (hsd : scalarKeys ix (patchDT (.doc fs)) = true)
+    (hsd : valueKeys ix (patchDT (.doc fs)) = true)
     (heq : keyEq (keyVals ix p.2) (keyVals ix (patchDT (.doc fs))) = true)
     (hid : dhas "_id" fs = true)
     (hk : storeKey (idOfDoc (patchDT (.doc fs))) = .ok k)
@@ -330,14 +330,14 @@ theorem insert_dup_dupKey (now : Int) (c : Coll) (fs : Fields) (ix : Index) (p :
       apply expire_noTtl
       show (c.setDoc k (Val.doc ds)).ttlIndexes = []
       unfold Coll.setDoc; split <;> exact hnt
-    have okn := okKeys_of_scalarKeys hsd
-    have okp := okKeys_of_scalarKeys (hsc p hp)
+    have okn := okKeys_of_valueKeys hsd
+    have okp := okKeys_of_valueKeys (hsc p hp)
     have hcdpf : pfOk ix (Val.doc ds) = true := by
       have := hcd; rw [covers_eq, Bool.and_eq_true] at this; exact this.2
     have hstep : ensureStep now (Val.doc ds) (c.storeDoc k (Val.doc ds)) ix =
         .error .dupKey := by
       refine ensureStep_dup (a := p) (b := (k, Val.doc ds)) he2 hu hdf ?_ hsd hcd ?_ ?_ hcp hcd
-        (by rw [← keyVals_eq, ← keyVals_eq]; exact heq) (keyEq_refl (kv_allScalar okn))
+        (by rw [← keyVals_eq, ← keyVals_eq]; exact heq) (keyEq_refl (kv_allKeyable okn))
       · intro q hq
         rw [storeDoc_docs, setDoc_docs_append _ hhas] at hq
         rcases List.mem_append.1 hq with h | h
